@@ -30,7 +30,7 @@ RULE = (
     "Non-trivial = at least one pre-emptive context switch landed; distinct = distinct sequence of (task, code location) at context switches."
 )
 ASSUMPTIONS = ["races inside a single Python line, inside http.client or inside C code are out of reach (one thread runs at a time, switches happen between lines)"]
-REQUIRED_PROBES = {"quick": ["preempted", "blocked_in_get", "close_raced", "closed_pool_error", "retry_concurrent", "redirect_concurrent", "all_completed", "pct_schedule", "systematic_single_preemption"], "thorough": ["preempted", "blocked_in_get", "close_raced", "closed_pool_error", "retry_concurrent", "redirect_concurrent", "all_completed", "pct_schedule"]}
+REQUIRED_PROBES = {"quick": ["preempted", "blocked_in_get", "close_raced", "closed_pool_error", "retry_concurrent", "redirect_concurrent", "partial_read_released", "all_completed", "pct_schedule", "systematic_single_preemption"], "thorough": ["preempted", "blocked_in_get", "close_raced", "closed_pool_error", "retry_concurrent", "redirect_concurrent", "partial_read_released", "all_completed", "pct_schedule"]}
 
 
 def warmup():
@@ -72,6 +72,14 @@ def gen(rng):
         t = rng.choice(tasks)
         t["ops"].insert(rng.randrange(len(t["ops"]) + 1), {"op": "close"})
     sc = {"property": ID, "config": cfg, "tasks": tasks, "exchanges": [], "schedule": gen_schedule(rng)}
+    if rng.random() < 0.12 and not cfg["preload"]:
+        # one request is only partly read before its connection is released and the response dropped, while the rest of its
+        # (chunked) body -- which is itself a well-formed HTTP response -- is still in flight: whoever gets that connection
+        # next must not be answered by the tail
+        t = rng.choice(tasks)
+        op = rng.choice([o for o in t["ops"] if o["op"] == "request"])
+        op["partial"] = rng.choice([0, 10])
+        sc["late_tail"] = {"path": op["path"], "framing": rng.choice(["cl", "chunked"]), "delay": rng.choice([0.5, 3.0])}
     if rng.random() < 0.3:
         sc["exchanges"] = [rng.choice([{"k": "rst"}, {"k": "eof"}, {"k": "resp", "status": 200, "keepalive": False},
                                        # a body-less redirect back to the same resource: the pool drains it, releases the connection and asks again
@@ -134,6 +142,18 @@ def run(sc: dict) -> Result:
         rec.owner = owner
 
     w.on_socket = on_socket
+    lt = sc.get("late_tail")
+    if lt:
+        def responder(world, peer, req):
+            if req.target == lt["path"] and not world.tags.get("late_tail_served"):
+                world.tags["late_tail_served"] = True
+                ex = {"k": "resp", "status": 200, "framing": lt["framing"], "body": {"tag": 30, "embed": True}, "split_embed": lt["delay"]}
+                if lt["framing"] == "chunked":
+                    ex["chunks"] = [100000]
+                return ex
+            return None
+
+        w.responder = responder
     has_close = any(o["op"] == "close" for t in sc["tasks"] for o in t["ops"])
     results = {}
     close_info = {"victims": [], "began": False}
@@ -155,6 +175,14 @@ def run(sc: dict) -> Result:
                         continue
                     try:
                         r = pool.urlopen("GET", op["path"], preload_content=cfg["preload"], pool_timeout=cfg["pool_timeout"])
+                        if "partial" in op and not cfg["preload"]:
+                            data = r.read(op["partial"]) if op["partial"] else b""
+                            st = r.status
+                            r.release_conn()
+                            r = None
+                            H.collect()  # the caller lets go of the response object
+                            out.append(("part", op["path"], st, data))
+                            continue
                         data = r.data if cfg["preload"] else r.read()
                         if not cfg["preload"]:
                             r.release_conn()
@@ -195,7 +223,12 @@ def run(sc: dict) -> Result:
             if err is not None and not isinstance(err, (S.SimDeadlock, S.TaskAbort, W.StepLimit)):
                 res.bad(f"task_crashed:{type(err).__name__}", f"{name}: {err!r:.160}")
             for item in out or []:
-                if item[0] == "ok":
+                if item[0] == "part":
+                    _, path, status, data = item
+                    res.probes["partial_read_released"] += 1
+                    if status != 200 or not (f"[GET {path} #").encode().startswith(data[:len(f"[GET {path} #")]):
+                        res.bad("wrong_response", f"{name} asked {path} and the first bytes were {data[:40]!r} (status {status})")
+                elif item[0] == "ok":
                     _, path, status, data = item
                     if (f"[GET {path} #").encode() not in data or status != 200:
                         res.bad("wrong_response", f"{name} asked {path} and received status {status} body {data[:60]!r}")
@@ -315,6 +348,13 @@ def shrinks(sc):
     if sc.get("exchanges"):
         c = copy.deepcopy(sc)
         c["exchanges"] = []
+        yield c
+    if sc.get("late_tail"):
+        c = copy.deepcopy(sc)
+        del c["late_tail"]
+        for t in c["tasks"]:
+            for o in t["ops"]:
+                o.pop("partial", None)
         yield c
     for fld, simple in (("maxsize", 1), ("preload", True)):
         if sc["config"][fld] != simple:
